@@ -192,4 +192,54 @@ func genC15(c *Ctx) {
 		}
 		run(fns, "random")
 	}
+	// defer-heavy bodies: most statements are defers, many of them nested calls of functions that register several
+	// defers of their own while the caller still has pending ones
+	heavy := []string{"DP%m", "DP%m", "DC0", "DC1", "DC0", "G1P%m", "G1C1", "G0P%m", "P%m", "C0", "DB%k.%m", "DF"}
+	nh := 600
+	if c.Thorough() {
+		nh = 8000
+	}
+	for i := 0; i < nh; i++ {
+		nf := 2 + c.Rng.Intn(3)
+		fns := [][]string{}
+		mk = 0
+		for f := 0; f < nf; f++ {
+			ln := 2 + c.Rng.Intn(5)
+			body := []string{}
+			for j := 0; j < ln; j++ {
+				k := c.Rng.Pick(heavy)
+				if strings.Contains(k, "C") {
+					if f == 0 {
+						k = "DP%m"
+					} else {
+						idx := c.Rng.Intn(f)
+						k = strings.Replace(strings.Replace(k, "C0", fmt.Sprintf("C%d", idx), 1), "C1", fmt.Sprintf("C%d", idx), 1)
+					}
+				}
+				body = append(body, inst(k))
+			}
+			fns = append(fns, body)
+		}
+		run(fns, "defer-heavy")
+	}
+	// long bodies (60..72 statements) with defers among the last statements
+	for i := 0; i < 24; i++ {
+		mk = 0
+		ln := 60 + c.Rng.Intn(13)
+		body := []string{}
+		for j := 0; j < ln; j++ {
+			k := "V%n"
+			if j%9 == 0 {
+				k = "P%m"
+			}
+			if j >= 58 && c.Rng.Intn(2) == 0 || j == 0 || j == 63 || j == 64 || j == 65 {
+				k = c.Rng.Pick([]string{"DP%m", "G1P%m", "DP%m", "DC0"})
+			}
+			body = append(body, inst(k))
+		}
+		if i%3 == 0 {
+			body = append(body, inst(c.Rng.Pick([]string{"R%n", "XErr.%m", "F"})))
+		}
+		run([][]string{{"DPhd", "Ph"}, body}, "long-body")
+	}
 }
